@@ -8,7 +8,7 @@
 #   3. the tree with the change builds and the pinned baseline still passes (unless SKIP_BASELINE=1)
 #   4. every listed check (default: meta.property) is run against the changed tree; exit codes are printed
 # Nothing here is a registered check; it is the harness used to validate the checks.
-export GOFLAGS=-mod=mod GOPROXY=off GOSUMDB=off GOTOOLCHAIN=local
+export GOFLAGS="-mod=mod -trimpath" GOPROXY=off GOSUMDB=off GOTOOLCHAIN=local
 here="$(cd "$(dirname "$0")/.." && pwd)"
 dir="$(cd "$1" && pwd)"; shift
 prop=$(python3 -c "import json;print(json.load(open('$dir/meta.json'))['property'])")
